@@ -91,7 +91,7 @@ class Call(Node):
         format = string
         items = []
         m = re.findall('(%[asdA])', format)
-        if m and not args:
+        if len(m) > len(args):
             raise SyntaxError('Not enough arguments...')
         i = 0
         for n in m:
@@ -103,7 +103,11 @@ class Call(Node):
             i += 1
         format = format.replace('%A', '%s')
         format = format.replace('%d', '%s')
-        return format % tuple(items)
+        try:
+            return format % tuple(items)
+        except (TypeError, ValueError) as e:
+            # another directive than %a %s %d %A, or a lone '%'
+            raise SyntaxError('Illegal format string %s: %s' % (string, e))
 
     def isnumber(self, string, *args):
         """Is number
